@@ -7,6 +7,9 @@ T = []
 _names = set()
 
 
+REALLOC = (("std::alloc::realloc", "crate::stubs::realloc_words"),)
+
+
 def H(name, call, props, cfg="w64", kind="pass", unwind=8, bound="", finding=None, stubs=(), pin=False):
     """props: dict property -> 'quick'|'thorough'"""
     full = name if cfg == "w64" else "%s_%s" % (name, cfg)
@@ -498,6 +501,29 @@ def div_family():
             H("c02_constdiv_cons_%s_%s" % (dn, wn), "h_div::const_div_constructed::<%d,%d,%d>([%s],%d,6,6)" % (n, n, n + 1, ",".join(map(str, d)), w),
               Q("C02") if dn in ("lg705", "dw_shift") else TH("C02"), unwind=n + 8,
               bound="ConstDivisor(%s) %s on dividends q*d + r (q, r < 2^6) of exactly as many words as the divisor" % (dn, wn))
+    # literal divisor, literal upper dividend words, SYMBOLIC low dividend word: expected (q, r) from constants
+    # computed here (q0, r0 = divmod at low word 0); covers "dividend as long as the divisor" and one word longer
+    W_ = 64
+    M_ = (1 << W_) - 1
+    def words(v, n):
+        return [(v >> (W_ * i)) & M_ for i in range(n)]
+    LOWSYM = {"lg705": [7, 0, 5], "lg3_top": [M_, 0, 1 << (W_ - 1)], "lg3_mid": [0x10001, 3, 0x12345678], "lg4_a": [3, 0, 0, 11]}
+    for dn, d in LOWSYM.items():
+        nd_ = len(d)
+        dv = sum(w << (W_ * i) for i, w in enumerate(d))
+        ups = {"eq": d[1:], "eq1": d[1:-1] + [d[-1] + 1], "dbl": words(2 * dv >> W_, nd_ - 1), "top": [M_] * (nd_ - 1), "long": [5] + d[1:-1] + [d[-1] - 1, 2], "longM": [M_] * (nd_ - 1) + [d[-1] - 1]}
+        for un, up in ups.items():
+            xv = sum(w << (W_ * (i + 1)) for i, w in enumerate(up))
+            if xv >> (W_ * len(up)) == 0 and up[-1] == 0:
+                continue
+            q0, r0 = divmod(xv, dv)
+            la = len(up) + 1
+            for w, wn in enumerate(("div", "rem", "divrem", "remref", "plain")):
+                H("c02_constdiv_lowsym_%s_%s_%s" % (dn, un, wn),
+                  "h_div::const_div_lowsym::<%d,%d,%d>([%s],[0,%s],[%s],[%s],%d,64)" % (nd_, la, nd_ + 1, ",".join(map(str, d)), ",".join(map(str, up)), ",".join(map(str, words(q0, 2))), ",".join(map(str, words(r0, nd_))), w),
+                  Q("C02") if (dn in ("lg705", "lg3_mid") and un in ("eq", "long") and w == 4) else TH("C02"), unwind=la + 3,
+                  stubs=REALLOC if w < 4 else (),
+                  bound="ConstDivisor(%s = %d-word literal) %s; dividend of %d words: literal upper words (%s), every low word%s" % (dn, nd_, wn, la, un, "; realloc stubbed as allocate+copy+free" if w < 4 else ""))
     for cfg in ("i64", "i32"):
         for sa in "pn":
             for sb in "pn":
@@ -851,11 +877,25 @@ def mark_candidates():
                     e["props"][prop] = "cand"
 
 
+def template_family():
+    # literal text with ONE symbolic byte: decided where the fully symbolic parser harnesses are not
+    T = [("0x1ff", 2), ("0x1ff", 1), ("0x1ff", 0), ("0x1ff", 4), ("+0b101", 3), ("+0b101", 0), ("-0o17", 0), ("-0o17", 3), ("12345", 0), ("12345", 2), ("0b", 1), ("+7", 0), ("0xff", 3), ("-0b1101", 6), ("+99", 2), ("0o777", 4)]
+    for t, hole in T:
+        for signed in (False, True):
+            nm = "".join(c if c.isalnum() else {"+": "p", "-": "m"}[c] for c in t)
+            H("c07_parse_tmpl_%s_h%d_%s" % (nm, hole, "i" if signed else "u"),
+              "h_text::parse_template::<%d>(*b\"%s\",%d,%s)" % (len(t), t, hole, "true" if signed else "false"),
+              Q("C07", "C16") if hole == len(t) - 1 and (t[:2] in ("0x", "0o") or (t == "-0b1101" and signed)) else TH("C07"), unwind=len(t) + 6,
+              bound="%s::from_str_with_radix_prefix on the literal text \"%s\" with byte %d replaced by every ASCII byte except '_'" % ("IBig" if signed else "UBig", t, hole))
+
+
 def literal_family():
     # "literal point" harnesses: no symbolic input at all. They exist for operations whose symbolic harnesses are
     # probes (undecided); each decides the property at a handful of named inputs only - stated as such in the bound.
     for w in range(16):
         H("c07_bytes_literal_%d" % w, "h_text::bytes_literals(%d)" % w, Q("C07"), unwind=64, bound="LITERAL POINT: two's complement byte round trip of one literal integer at a word/byte boundary (case %d of 16: +-2^64, -2^72, +-2^128, -(2^128+1), +-2^135, -2^136, +-(2^136-1), -(2^136+1), +-2^143, +-2^192)" % w)
+    for w in range(20):
+        H("c07_parse_literal_%d" % w, "h_text::parse_literals(%d)" % w, Q("C07"), unwind=12, bound="LITERAL POINT: from_str_with_radix_prefix on one literal text (case %d of 20: signs after the prefix, doubled signs, empty bodies, digits outside the radix, upper-case prefix, leading space)" % w)
     H("c14_ord_float_literals", "h_numord::ord_float_literals()", Q("C14"), "i64", unwind=16, bound="LITERAL POINTS: NumOrd of 7 small integers against 9 literal f32/f64 values (fractions, halves, integers, -0.0, NaN)")
     H("c06_from_float_literals", "h_conv::from_float_literals()", Q("C06"), "i64", unwind=16, bound="LITERAL POINTS: TryFrom<f32/f64> for IBig/UBig on 6 integral and 7 non-integral / non-finite literals")
     # h_float::ctx_add_literals (C03, not claimed) stays unregistered: see DESIGN 0.3
@@ -895,6 +935,7 @@ def build():
     numord_family()
     buf_family()
     literal_family()
+    template_family()
     # float_family() is NOT registered: every instance ran out of time/memory (DESIGN 0.2 (k)); the bodies in
     # h_float.rs are kept because their native random run (--selftest) exposed a genuine rounding defect
     thin()
